@@ -101,6 +101,16 @@ CHECKS = {
         design_ref='DESIGN.md §5 C10',
         note='canonical single-blank multi-word keywords (respellings are C11); programs x options sampled',
         technique='TLA+ normal-form predicates evaluated by TLC on recorded format() runs; TLA+-generated programs/options'),
+    'C11': dict(
+        category='model_checking',
+        text=("Spelling.tla models the comparison sites of the code (which projection of a keyword's spelling each one inspects) and TLC "
+              "lists the spelling-sensitive ones. TLC-generated programs (SqlGen) and procedural scripts (ScriptGen, simulate + state "
+              "cover with probes) are written in canonical spelling and respelled: every whitespace position, including those inside "
+              "multi-word keywords, gets another non-empty filler, every keyword another casing. TLC (TraceShape.tla) compares statement "
+              "count, boundaries, get_type() and the tree shape entry by entry."),
+        design_ref='DESIGN.md §5 C11',
+        note='respelling is driven by the real lexer tokenisation of the canonical text; assignments of fillers are sampled',
+        technique='TLA+ comparison-site model (TLC) + TLC-generated programs respelled + TLC trace validation of shape equality'),
     'C12': dict(
         category='model_checking',
         text=("SqlGen.tla annotates every object reference it derives with its name / qualifier / alias spans; programs (start symbols "
